@@ -202,8 +202,10 @@ void run_export_case(const json& c, const std::string& workdir, std::vector<json
             if (op.contains("sigh")) h.query_response_signature_hints = op["sigh"].get<uint32_t>();
             if (op.contains("rrh")) h.rr_hints = op["rrh"].get<uint8_t>();
             if (op.contains("oth")) h.other_data_hints = op["oth"].get<uint8_t>();
+            if (op.contains("tps")) bp.storage_parameters.ticks_per_second = op["tps"].get<uint64_t>();
+            if (op.contains("max")) bp.storage_parameters.max_block_items = op["max"].get<uint64_t>();
             json& bj = bps_json.at(x->get_active_block_parameters());
-            for (const char* k : {"qrh", "sigh", "rrh", "oth"}) if (op.contains(k)) bj[k] = op[k];
+            for (const char* k : {"qrh", "sigh", "rrh", "oth", "tps", "max"}) if (op.contains(k)) bj[k] = op[k];
             e["ret"] = 0;
         });
         else if (o == "counters") logged(log, i, "counters", [&](json& e) {
